@@ -551,6 +551,12 @@ void gen(uint64_t seed, int tier, sim::Plan &p) {
         op.kind = OP_FILE;
         op.a = r.chance(0.5);
         op.b = r.pick(std::vector<int64_t>{0, 1, L > 0 ? L - 1 : 0, L, L + 1, 2 * L, 31, 32, 4096});
+        if (fault == 4) {
+            // "nothing to read right now" style errors as well, and errors that land exactly between two read requests of the call (the request
+            // sizes follow the buffer's capacity: hint, hint + 1, twice that, ...), so that a whole request comes back empty-handed
+            p.cfg["fault_errno"] = r.pick(std::vector<int64_t>{EIO, EINTR, ENOSPC, EAGAIN, EWOULDBLOCK, ESTALE});
+            if (r.chance(0.4)) p.cfg["fault_offset"] = r.pick(std::vector<int64_t>{op.b, op.b + 1, 2 * (op.b + 1), 4096, 8192, L > 1 ? L / 2 : 0});
+        }
         p.ops.push_back(op);
     } else {
         int n = (int)r.range(3, 40);
